@@ -6,6 +6,11 @@ Parts:
       ASTs, is built from the same constructors, keeps directives / keywords / params / base / decorators,
       railroads() completes with equal widths.  Families: random grammars (clean / risky pools), the layout
       family (every container around bodies that the printers wrap over several lines), wide random grammars.
+      ANTLR family: random ANTLR grammars (parser rules with literals, rule / token references, parenthesised
+      sub-expressions, ~negation of literals / tokens / sets / sub-expressions, ? * + suffixes, labels, alternatives,
+      empty alternatives, actions, predicates, rewrites; lexer rules, fragments, tokens{} sections, options) put
+      through tatsu.g2e.translate; the translated model goes through the same oracles, with sentences sampled from
+      the translated model itself and every rule also used as the start rule.
   P2  quoting level: Pretty.v (py_repr, pattern printer, the string / regex lexers + eval_escapes) vs
       repr(), Token._pretty, Pattern._pretty and tatsu.compile of a one-rule grammar holding the literal.
   P3  Rails.v vs tatsu/railroads/railmath.py on random rails.
@@ -562,6 +567,8 @@ def build_grammar(spec):
 # sample sentences
 
 PAT_SAMPLES = dict(PATTERNS_CLEAN + PATTERNS_RISKY + PATTERNS_WIDE)
+EXTRA_PAT_SAMPLES: dict = {}      # samples of patterns that are not from the pools (filled by model_spec: ANTLR family)
+SENT = {'tease': False}           # tease: now and then put the operand of a negative lookahead where it must not be
 
 
 NOSP = '\x01'      # marks a piece of a sentence that must not be preceded by blanks
@@ -588,7 +595,7 @@ def sentence(e, rules, rng, depth=0, rich=False) -> str:
     if k == 'tok':
         return e[1]
     if k == 'pat':
-        return NOSP + rng.choice(PAT_SAMPLES.get(e[1], ['']))
+        return NOSP + rng.choice(PAT_SAMPLES.get(e[1]) or EXTRA_PAT_SAMPLES.get(e[1], ['']))
     if k == 'meta':
         return rng.choice(META_SAMPLE[e[1]])
     if k in ('call', 'include'):
@@ -607,8 +614,16 @@ def sentence(e, rules, rng, depth=0, rich=False) -> str:
         return ''
     if k == 'seq':
         parts = []
+        skip = False
         for i, x in enumerate(e[1]):
+            if skip:
+                skip = False
+                continue
             if x[0] == 'la' and i + 1 < len(e[1]):
+                continue
+            if SENT['tease'] and x[0] == 'nla' and i + 1 < len(e[1]) and rng.random() < 0.25:
+                parts.append(sub(x[1]))      # what the lookahead forbids, in place of the element it guards
+                skip = True
                 continue
             parts.append(sub(x))
         return cat(parts)
@@ -694,9 +709,11 @@ def canon(x):
         return repr(x)
 
 
-def parse_outcome(model, text):
+def parse_outcome(model, text, start=None):
     from tatsu.exceptions import ParseException
     try:
+        if start is not None:
+            return ('ok', canon(guarded(lambda: model.parse(text, start=start), 2)))
         return ('ok', canon(guarded(lambda: model.parse(text), 2)))
     except Timeout:
         return ('timeout',)
@@ -730,6 +747,8 @@ def shape(node):
     the same parser that the printers may legitimately exchange are identified: Fail prints as `!()` and the
     pattern `.` prints as the Dot symbol `/./`."""
     t = type(node).__name__
+    if t == 'Synth':      # g2e's placeholder for a token referenced before its rule: parses and prints as its content
+        return shape(node.exp)
     if t == 'Fail':
         return ('NegativeLookahead', (('Void', ()),))
     if t == 'Pattern' and getattr(node, 'pattern', None) == '.':
@@ -769,8 +788,10 @@ def shape_diff(a, b):
     return None
 
 
-def check_model(m, inputs, compile_fn):
-    """first failure of the property on model m: (kind, detail) or None"""
+def check_model(m, inputs, compile_fn, starts=()):
+    """first failure of the property on model m: (kind, detail) or None.  starts: (rule name, text) pairs that are
+    parsed with that rule as the start rule on both models (a rule that the start rule only reaches through a
+    failing or rarely taken path is compared on its own sentences)."""
     try:
         p1 = guarded(lambda: m.pretty())
     except Timeout:
@@ -817,6 +838,13 @@ def check_model(m, inputs, compile_fn):
             break      # a hang of the engine itself (e.g. a whitespace pattern that matches empty) is not C13's
         if ('timeout',) in (o1, o2):
             continue   # one side over budget: the input is skipped, never a verdict
+        if o1 != o2:
+            return ('parse-differs', f'{o1[0]}->{o2[0]}')
+    for name, text in starts:
+        o1 = parse_outcome(m, text, name)
+        o2 = parse_outcome(m2, text, name)
+        if ('timeout',) in (o1, o2):
+            continue
         if o1 != o2:
             return ('parse-differs', f'{o1[0]}->{o2[0]}')
     # "the same parser": the recompiled model is built from the same constructors in the same places (a sampled
@@ -1612,6 +1640,793 @@ def run_layout(chk: Check, prober: Prober):
     chk.sample({'layout grammars': i + n, 'failing (incl. known)': nbad})
 
 
+# ---------------------------------------------------------------------------------------------------
+# ANTLR family: models obtained by tatsu.g2e.translate (what `tatsu g2e` prints is pretty() of such a model)
+#
+#   AG = {'kind': ''|'parser'|'lexer'-less prefix, 'prelude': [str], 'tokens': [(NAME, value|None)], 'tokstyle': 3|4,
+#         'rules': [AR]}
+#   AR = {'name', 'lexer': bool, 'fragment': bool, 'exp': AE, 'tail': str}      (tail: lexer command `-> skip`)
+#   AE = ('lit', text) | ('ref', rule) | ('tref', TOKEN) | ('eof',) | ('any',) | ('set', '[a-z]', rep) |
+#        ('nset', '[abc]', rep) | ('range', 'a', 'z') | ('sub', AE) | ('neg', AE) | ('opt'|'clo'|'pclo', AE) |
+#        ('label'|'labellist', name, AE) | ('action', text) | ('pred', text) | ('synpred', AE) | ('seq', [AE]) |
+#        ('alt', [AE]) | ('rewrite', AE, text)
+#   lit texts are the RAW text between the ANTLR quotes (g2e keeps escapes as written)
+
+A_LITS = ['let', 'end', 'done', 'begin', 'if', 'then', 'else', 'xx', 'yy', 'zz', ':=', '==', '->', '=>', '<=', '(', ')',
+          '+', '-', ',', ';', '{', '}', '[', ']', '|', '~', '?', '*', '.', '..', 'a', 'b', 'c', 'x', '0', '1', 'not in',
+          '\\\\', "\\'", '\\n', '\\u0041', '/', '//', '#', '@', '$', '`', 'é', 'A', 'End', 'while_', '!=', '&&', '::']
+A_LITS_DQ = ['str', 'q r', "it's", '\\"', '<<', 'x']
+A_SETS = ['[a-z]', '[a-zA-Z_]', '[0-9]', '[ \\t]', '[abc]', '[a-z0-9_]', '[\\r\\n]', '[+\\-]', '[\\u0041-\\u005A]', '[xyz]',
+          '[.,;]', '[a-f0-9]']
+A_REPS = ['', '', '+', '*', '?', '+?']
+A_PRULES = ['prog', 'stat', 'expr', 'term', 'atom', 'item', 'declList', 'primaryExpr', 'block_', 'argList', 'x1',
+            'typeName', 'e', 'compilationUnit']
+A_TOKENS = ['ID', 'INT', 'SEMI', 'PLUS', 'WS', 'Comma', 'StringLit', 'LPAREN', 'NEWLINE', 'KwEnd', 'T_1', 'Arrow']
+A_LABELS = ['n', 'op', 'lhs', 'rhs', 'ids', 'val', 'e1']
+A_ACTIONS = ['{ count++; }', '{x = 1;}', '{ $n.text }', '{ f(a, b) }']
+A_PREDS = ['{ok}?', '{ la(1) == 3 }?', '{ isType() }?=>']
+A_ATOMIC = {'lit', 'ref', 'tref', 'eof', 'any', 'set', 'nset', 'range', 'sub', 'neg'}
+
+
+def a_kids(e):
+    k = e[0]
+    if k in ('seq', 'alt'):
+        return list(e[1])
+    if k in ('sub', 'neg', 'opt', 'clo', 'pclo', 'synpred', 'rewrite'):
+        return [e[1]]
+    if k in ('label', 'labellist'):
+        return [e[2]]
+    return []
+
+
+def a_walk(e):
+    yield e
+    for x in a_kids(e):
+        yield from a_walk(x)
+
+
+def a_nullable(e) -> bool:
+    k = e[0]
+    if k in ('lit', 'ref', 'tref', 'any', 'range', 'neg'):
+        return False
+    if k in ('set', 'nset'):
+        return e[2] in ('*', '?', '+?')
+    if k in ('opt', 'clo', 'action', 'pred', 'synpred', 'eof'):
+        return True
+    if k in ('sub', 'pclo', 'rewrite'):
+        return a_nullable(e[1])
+    if k in ('label', 'labellist'):
+        return a_nullable(e[2])
+    if k == 'seq':
+        return all(a_nullable(x) for x in e[1])
+    if k == 'alt':
+        return any(a_nullable(x) for x in e[1])
+    return True
+
+
+class AGen:
+    """random ANTLR grammars in the subset that tatsu/g2e/antlr.tatsu reads"""
+
+    def __init__(self, rng, risky=False):
+        self.rng = rng
+        self.risky = risky          # may write the constructs that hit the recorded defects of the translator
+        self.later: list = []       # parser rules that may be referenced (defined later: no left recursion)
+        self.tokens: list = []      # token names in play (defined before, after, in tokens{}, or never)
+
+    def lit(self):
+        r = self.rng
+        if r.random() < 0.1:
+            return ('lit', r.choice(A_LITS_DQ), '"')
+        return ('lit', r.choice(A_LITS), "'")
+
+    def leaf(self, in_neg=False):
+        r = self.rng
+        x = r.random()
+        if x < 0.50:
+            return self.lit()
+        if x < 0.64 and self.later and not in_neg:
+            return ('ref', r.choice(self.later))
+        if x < 0.64 and self.later:
+            return ('ref', r.choice(self.later))
+        if x < 0.80 and self.tokens:
+            return ('tref', r.choice(self.tokens))
+        if x < 0.84:
+            return ('any',)
+        if x < 0.90:
+            return ('set', r.choice(A_SETS), r.choice(A_REPS))
+        if x < 0.93:
+            return ('nset', r.choice(A_SETS), r.choice(A_REPS))
+        if x < 0.96:
+            lo, hi = r.choice([('a', 'z'), ('0', '9'), ('A', 'F'), ('\\u0061', '\\u007a')])
+            return ('range', lo, hi)
+        return self.lit()
+
+    def atom(self, depth):
+        r = self.rng
+        x = r.random()
+        if depth <= 0 or x < 0.55:
+            return self.leaf()
+        if x < 0.78:
+            return ('sub', self.alts(depth - 1))
+        if x < 0.96:
+            # ~atom: a literal, a token, a set, another negation, or a parenthesised sub-expression (alternatives of
+            # multi-character literals / rule references / sequences stay a sub-expression; alternatives of single
+            # characters become a character class)
+            y = r.random()
+            if y < 0.25:
+                return ('neg', self.lit())
+            if y < 0.35 and self.tokens:
+                return ('neg', ('tref', r.choice(self.tokens)))
+            if y < 0.42:
+                return ('neg', ('set', r.choice(A_SETS), ''))
+            if y < 0.46:
+                inner = ('neg', self.lit())
+                return ('neg', inner if self.risky else ('sub', inner))
+            return ('neg', ('sub', self.alts(depth - 1, small=True)))
+        return self.leaf()
+
+    def element(self, depth):
+        r = self.rng
+        x = r.random()
+        if x < 0.04:
+            return ('action', r.choice(A_ACTIONS))
+        if x < 0.07:
+            return ('pred', r.choice(A_PREDS))
+        if x < 0.09:
+            return ('synpred', self.alts(0, small=True))
+        a = self.atom(depth)
+        if x < 0.20:
+            if a[0] == 'neg' and not self.risky:
+                a = ('sub', a)
+            return (r.choice(['label', 'label', 'labellist']), r.choice(A_LABELS), a)
+        if x < 0.30:
+            return ('opt', a)
+        if x < 0.33:
+            return ('opt', (r.choice(['clo', 'pclo']), self.nonnull(a)))
+        if x < 0.42:
+            return ('clo', self.nonnull(a))
+        if x < 0.50:
+            return ('pclo', self.nonnull(a))
+        return a
+
+    def nonnull(self, a):
+        if a_nullable(a):
+            return ('sub', ('seq', [self.lit(), a]))
+        return a
+
+    def seq(self, depth, small=False):
+        r = self.rng
+        n = r.choice([1, 1, 2] if small else [1, 2, 2, 3])
+        if r.random() < 0.03:
+            return ('seq', [])      # an empty alternative
+        items = [self.element(depth) for _ in range(n)]
+        return items[0] if len(items) == 1 else ('seq', items)
+
+    def alts(self, depth, small=False):
+        r = self.rng
+        n = r.choice([1, 2, 2, 3] if small else [1, 1, 2, 2, 3])
+        if n == 1:
+            return self.seq(depth, small)
+        return ('alt', [self.seq(depth, small) for _ in range(n)])
+
+    def lexer_body(self):
+        r = self.rng
+        x = r.random()
+        if x < 0.45:
+            return self.lit()       # a literal token rule: references are replaced by the literal
+        if x < 0.60:
+            return ('seq', [('set', r.choice(A_SETS), ''), ('set', r.choice(A_SETS), r.choice(['*', '+']))])
+        if x < 0.70:
+            return ('pclo', ('sub', ('alt', [('range', 'a', 'z'), ('range', 'A', 'Z'), ('lit', '_', "'")])))
+        if x < 0.80:
+            return ('seq', [('lit', '//', "'"), ('clo', ('nset', '[\\r\\n]', ''))])
+        if x < 0.90:
+            return ('alt', [self.lit(), self.lit()])
+        return ('seq', [('lit', '"', "'"), ('clo', ('sub', ('alt', [('lit', '\\\\"', "'"), ('neg', ('lit', '"', "'"))]))),
+                        ('lit', '"', "'")])
+
+    def grammar(self):
+        r = self.rng
+        np_ = r.choice([1, 2, 2, 3, 3, 4])
+        pnames = r.sample(A_PRULES, np_)
+        tnames = r.sample(A_TOKENS, r.choice([0, 1, 2, 3, 4]))
+        # where each token comes from: a lexer rule before the parser rules, after them, the tokens{} section, nowhere
+        where = {t: r.choice(['before', 'after', 'after', 'section', 'section+rule', 'undefined']) for t in tnames}
+        self.tokens = list(tnames)
+        lex = {t: {'name': t, 'lexer': True, 'fragment': r.random() < 0.15, 'exp': self.lexer_body(),
+                   'tail': r.choice(['', '', '', ' -> skip', ' -> channel(HIDDEN)'])}
+               for t in tnames if where[t] in ('before', 'after', 'section+rule')}
+        prules = []
+        for i in range(np_ - 1, -1, -1):
+            self.later = pnames[i + 1:]
+            exp = self.alts(r.choice([1, 1, 2]))
+            if i == 0 and r.random() < 0.6:
+                exp = ('seq', list(exp[1]) + [('eof',)]) if exp[0] == 'seq' else \
+                    ('seq', [('sub', exp) if exp[0] == 'alt' else exp, ('eof',)])
+            if r.random() < 0.1:      # an ANTLR 3 rewrite: only after a top-level alternative of a rule
+                opts = list(exp[1]) if exp[0] == 'alt' else [exp]
+                j = r.randrange(len(opts))
+                opts[j] = ('rewrite', opts[j], r.choice(['ID', '$lhs $rhs', 'foo']))
+                exp = ('alt', opts) if len(opts) > 1 else opts[0]
+            if not self.risky and len(a_src(a_norm(exp))) > 36:
+                # the translation of `~x` is a bare sequence: inside a sequence that the printer wraps it is laid out
+                # differently from its flat re-reading (recorded defect); long rules write `( ~x )`
+                exp = a_group_negs(exp)
+            prules.append({'name': pnames[i], 'lexer': False, 'fragment': False, 'exp': exp, 'tail': ''})
+        prules.reverse()
+        rules = [lex[t] for t in tnames if where[t] == 'before' and r.random() < 0.5]
+        first = [x['name'] for x in rules]
+        rules = rules + prules + [lex[t] for t in tnames if t in lex and t not in first]
+        if rules[0]['lexer'] and r.random() < 0.7:      # mostly keep a parser rule first (the start rule)
+            rules = prules + [x for x in rules if x['lexer']]
+        prelude = []
+        if r.random() < 0.25:
+            prelude.append('options { language = Java; tokenVocab = Lex; }')
+        if r.random() < 0.12:
+            prelude.append('@header { package foo; }')
+        if r.random() < 0.12:
+            prelude.append('@members { int count = 0; { nested(); } }')
+        section = [(t, (r.choice(A_LITS[:30]) if self.risky and r.random() < 0.6 else None)) for t in tnames
+                   if where[t].startswith('section')]
+        return {'kind': r.choice(['', '', '', 'parser ']), 'prelude': prelude, 'tokens': section,
+                'tokstyle': r.choice([3, 4]), 'rules': rules, 'comments': r.random() < 0.3}
+
+
+def a_norm(e, ctx=''):
+    """e with a ('sub', ..) wherever the ANTLR text needs parentheses (shrinking may leave a sequence under a suffix)"""
+    k = e[0]
+    if k in ('seq', 'alt'):
+        return (k, [a_norm(x, k) for x in e[1]])
+    if k in ('opt', 'clo', 'pclo', 'neg'):
+        c = a_norm(e[1], 'atom')
+        if c[0] not in A_ATOMIC and not (k == 'opt' and c[0] in ('clo', 'pclo')):
+            c = ('sub', c)
+        return (k, c)
+    if k in ('label', 'labellist'):
+        c = a_norm(e[2], 'atom')
+        return (k, e[1], c if c[0] in A_ATOMIC else ('sub', c))
+    if k in ('sub', 'synpred'):
+        return (k, a_norm(e[1]))
+    if k == 'rewrite':
+        return (k, a_norm(e[1]), e[2])
+    return e
+
+
+def a_src(e) -> str:
+    k = e[0]
+    if k == 'lit':
+        return e[2] + e[1] + e[2]
+    if k in ('ref', 'tref'):
+        return e[1]
+    if k == 'eof':
+        return 'EOF'
+    if k == 'any':
+        return '.'
+    if k == 'set':
+        return e[1] + e[2]
+    if k == 'nset':
+        return '~' + e[1] + e[2]
+    if k == 'range':
+        return f"'{e[1]}'..'{e[2]}'"
+    if k == 'sub':
+        return '( ' + a_src(e[1]) + ' )'
+    if k == 'synpred':
+        return '( ' + a_src(e[1]) + ' )=>'
+    if k == 'neg':
+        return '~' + a_src(e[1])
+    if k in ('opt', 'clo', 'pclo'):
+        return a_src(e[1]) + {'opt': '?', 'clo': '*', 'pclo': '+'}[k]
+    if k == 'label':
+        return e[1] + '=' + a_src(e[2])
+    if k == 'labellist':
+        return e[1] + '+=' + a_src(e[2])
+    if k in ('action', 'pred'):
+        return e[1]
+    if k == 'rewrite':
+        return a_src(e[1]) + ' -> ' + e[2]
+    if k == 'seq':
+        out = []
+        for x in e[1]:
+            t = a_src(x if x[0] != 'alt' else ('sub', x))
+            # `name [..` is a rule reference with an argument: keep a set apart from a preceding reference
+            if out and t.startswith('[') and (out[-1][-1:].isalnum() or out[-1][-1:] == '_'):
+                t = '( ' + t + ' )'
+            out.append(t)
+        return ' '.join(out)
+    if k == 'alt':
+        return ' | '.join(a_src(x if x[0] != 'alt' else ('sub', x)) for x in e[1])
+    raise ValueError(k)
+
+
+def antlr_text(ag) -> str:
+    out = [f"{ag['kind']}grammar Gen;"]
+    if ag.get('comments'):
+        out.append('// generated\n/* block\n   comment */')
+    out += ag['prelude']
+    if ag['tokens']:
+        if ag['tokstyle'] == 3:
+            out.append('tokens { ' + ' '.join(f"{n} = '{v}';" if v is not None else f'{n};' for n, v in ag['tokens']) + ' }')
+        else:
+            out.append('tokens { ' + ', '.join(f"{n} = '{v}'" if v is not None else n for n, v in ag['tokens']) + ' }')
+    for r in ag['rules']:
+        body = a_src(a_norm(r['exp']))
+        head = ('fragment ' if r['fragment'] else '') + r['name']
+        if ag.get('comments') and not r['lexer']:
+            out.append('// rule ' + r['name'])
+        out.append(f"{head} : {body}{r['tail']} ;")
+    return '\n'.join(out) + '\n'
+
+
+def ag_ok(ag) -> bool:
+    if not ag['rules']:
+        return False
+    names = [r['name'] for r in ag['rules'] if not r['lexer']]
+    for r in ag['rules']:
+        for e in a_walk(r['exp']):
+            if e[0] == 'ref' and e[1] not in names:
+                return False
+            if e[0] == 'lit' and e[1] == '':
+                return False
+    return True
+
+
+SAMPLE_CANDS = ['a', 'b', 'x', 'q', 'z', 'k', 'c', 'f', '7', '0', '42', 'ab', 'xy', 'zz', 'A', 'Q', 'E', '_', '+', '-', ';',
+                ',', '.', '"', ' ', '\t', '\n', 'a1', 'x_1', 'é', 'end', 'xq', '9z', '#']
+
+
+def pattern_samples(p):
+    import re
+    if p in PAT_SAMPLES:
+        return PAT_SAMPLES[p]
+    if p not in EXTRA_PAT_SAMPLES:
+        try:
+            rx = re.compile(p)
+            EXTRA_PAT_SAMPLES[p] = [c for c in SAMPLE_CANDS if rx.fullmatch(c)][:6] or ['']
+        except Exception:
+            EXTRA_PAT_SAMPLES[p] = ['']
+    return EXTRA_PAT_SAMPLES[p]
+
+
+MODEL_KINDS = {'Group': 'group', 'SkipGroup': 'skipgroup', 'Optional': 'opt', 'Closure': 'clo', 'PositiveClosure': 'pclo',
+               'Lookahead': 'la', 'NegativeLookahead': 'nla', 'SkipTo': 'skipto', 'Override': 'override',
+               'OverrideList': 'overridelist'}
+MODEL_JOINS = {'Join': 'join', 'PositiveJoin': 'pjoin', 'Gather': 'gather', 'PositiveGather': 'pgather',
+               'LeftJoin': 'leftjoin', 'RightJoin': 'rightjoin'}
+MODEL_LEAVES = {'Dot': 'dot', 'EOF': 'eof', 'EOL': 'eol', 'Void': 'void', 'Fail': 'fail', 'Cut': 'cut',
+                'EmptyClosure': 'empty'}
+
+
+def model_exp(n):
+    """a model node as an expression spec (only used to sample sentences of a model we did not build from a spec)"""
+    t = type(n).__name__
+    if t in ('Synth', 'Option'):
+        return model_exp(n.exp)
+    if t == 'Token':
+        return ('tok', str(n.token))
+    if t == 'Pattern':
+        pattern_samples(n.pattern)
+        return ('pat', n.pattern)
+    if t == 'Call':
+        return ('call', n.name)
+    if t == 'RuleInclude':
+        return ('include', n.name)
+    if t in MODEL_LEAVES:
+        return (MODEL_LEAVES[t],)
+    if t == 'Sequence':
+        return ('seq', [model_exp(x) for x in n.sequence])
+    if t == 'Choice':
+        return ('choice', [model_exp(x) for x in n.options])
+    if t in MODEL_KINDS:
+        return (MODEL_KINDS[t], model_exp(n.exp))
+    if t in ('Named', 'NamedList'):
+        return (t.lower(), n.name, model_exp(n.exp))
+    if t in MODEL_JOINS:
+        return (MODEL_JOINS[t], model_exp(n.sep), model_exp(n.exp))
+    return ('void',)
+
+
+def model_spec(m):
+    return {'directives': [], 'keywords': [],
+            'rules': [{'name': r.name, 'decorators': [], 'params': [], 'kwparams': [], 'base': None,
+                       'exp': model_exp(r.exp), 'flags': {}} for r in m.rules]}
+
+
+def antlr_inputs(m, rng, quick):
+    """(inputs for the start rule, (rule, text) pairs for the other rules): sentences sampled from the translated
+    model itself; of the candidates, those the model accepts are preferred (blanks, name guards and lookaheads make
+    many sampled sentences fail on any model, and two failures compare nothing)"""
+    spec = model_spec(m)
+    rules = {r['name']: r for r in spec['rules']}
+    SENT['tease'] = True
+    try:
+        def sample(rule, n, rich):
+            out = []
+            for i in range(n):
+                s = sentence(rule['exp'], rules, rng, rich=(i < rich)).replace(NOSP, '')
+                if s not in out and len(s) <= 300:
+                    out.append(s)
+            return out
+        start = spec['rules'][0]
+        cands = [''] + sample(start, 10 if quick else 16, 2)
+        for s in list(cands[1:4]):
+            if s:
+                i = rng.randrange(len(s))
+                cands.append(s[:i] + s[i + 1:])
+                cands.append(s[:i] + rng.choice(['x', ' ', '9', 'end']) + s[i:])
+        acc, rej = [], []
+        for s in dict.fromkeys(cands):
+            (acc if parse_outcome(m, s)[0] == 'ok' else rej).append(s)
+        inputs = acc[:5] + rej[:4 if quick else 8]
+        starts = []
+        for r in spec['rules'][1:]:
+            if r['exp'] in (('fail',), ('void',)):
+                continue
+            c = sample(r, 5, 1)
+            a = [s for s in c if parse_outcome(m, s, r['name'])[0] == 'ok']
+            b = [s for s in c if s not in a]
+            starts += [(r['name'], s) for s in a[:2] + b[:1]]
+    finally:
+        SENT['tease'] = False
+    return inputs, starts, len(acc)
+
+
+def antlr_failure(ag, rng, quick, stats=None, model_fix=None):
+    """(kind, detail) | None | ('skip', why) for the model that g2e.translate makes of the ANTLR grammar ag
+    (model_fix: a counterfactual rewrite of the translated model, see NEUTRAL)"""
+    import tatsu
+    from tatsu import g2e
+    LAST['wrapped'] = False
+    try:
+        text = antlr_text(ag)
+        m = guarded(lambda: g2e.translate(text=text, name='Gen'), 10)
+        if model_fix:
+            m = model_fix(m)
+    except Timeout:
+        return ('skip', 'timeout')
+    except Exception as e:
+        return ('skip', 'invalid:' + type(e).__name__)
+    try:
+        inputs, starts, nacc = antlr_inputs(m, rng, quick)
+    except Timeout:
+        return ('skip', 'timeout:inputs')
+    if stats is not None:
+        stats['accepted'] = nacc
+        stats['inputs'] = len(inputs) + len(starts)
+        stats['nodes'] = sorted({type(n).__name__ for r in m.rules for n in model_nodes(r)})
+    LAST['wrapped'] = is_wrapped(m)
+    f = check_model(m, inputs, tatsu.compile, starts)
+    if f:
+        return f
+    return check_rails(m)
+
+
+def model_nodes(n):
+    yield n
+    try:
+        kids = list(n.children())
+    except Exception:
+        kids = []
+    for c in kids:
+        yield from model_nodes(c)
+
+
+def a_candidates(e):
+    k = e[0]
+    out = []
+    if k in ('seq', 'alt'):
+        items = list(e[1])
+        out += items
+        if len(items) > 1:
+            out += [(k, items[:i] + items[i + 1:]) for i in range(len(items))]
+        for i, x in enumerate(items):
+            out += [(k, items[:i] + [y] + items[i + 1:]) for y in a_candidates(x)]
+    elif k in ('sub', 'neg', 'opt', 'clo', 'pclo', 'synpred'):
+        out.append(e[1])
+        out += [(k, y) for y in a_candidates(e[1])]
+    elif k == 'rewrite':
+        out.append(e[1])
+        out += [(k, y, e[2]) for y in a_candidates(e[1])]
+    elif k in ('label', 'labellist'):
+        out.append(e[2])
+        if k == 'labellist':
+            out.append(('label', e[1], e[2]))
+        out += [(k, e[1], y) for y in a_candidates(e[2])]
+    elif k == 'lit':
+        for c in ('a', 'aa'):
+            if (e[1], e[2]) != (c, "'") and len(c) <= len(e[1]):
+                out.append(('lit', c, "'"))
+    elif k in ('set', 'nset'):
+        out.append(('lit', 'a', "'"))
+        if e[2]:
+            out.append((k, e[1], ''))
+        if e[1] != '[ab]':
+            out.append((k, '[ab]', e[2]))
+    else:
+        out.append(('lit', 'a', "'"))
+    return out
+
+
+def ag_candidates(ag):
+    rules = ag['rules']
+    if ag['prelude']:
+        yield dict(ag, prelude=[])
+    if ag.get('comments'):
+        yield dict(ag, comments=False)
+    if ag['kind']:
+        yield dict(ag, kind='')
+    if ag['tokens']:
+        yield dict(ag, tokens=[])
+        for i in range(len(ag['tokens'])):
+            yield dict(ag, tokens=ag['tokens'][:i] + ag['tokens'][i + 1:])
+    for i in range(len(rules) - 1, -1, -1):
+        if len(rules) > 1:
+            yield dict(ag, rules=rules[:i] + rules[i + 1:])
+    for i, r in enumerate(rules):
+        def with_rule(nr):
+            return dict(ag, rules=rules[:i] + [nr] + rules[i + 1:])
+        if r['tail']:
+            yield with_rule(dict(r, tail=''))
+        if r['fragment']:
+            yield with_rule(dict(r, fragment=False))
+        if r['exp'] != ('lit', 'a', "'"):
+            yield with_rule(dict(r, exp=('lit', 'a', "'")))
+        for y in a_candidates(r['exp']):
+            yield with_rule(dict(r, exp=y))
+
+
+def a_size(ag) -> int:
+    return sum(1 for r in ag['rules'] for _ in a_walk(r['exp'])) + len(ag['tokens']) + len(ag['prelude'])
+
+
+def antlr_shrink(ag, rng_seed, quick, kind, detail, budget, model_fix=None):
+    import random
+
+    def bad(c):
+        if not ag_ok(c):
+            return False
+        f = antlr_failure(c, random.Random(rng_seed), quick, model_fix=model_fix)
+        if f is None or f[0] != kind:
+            return False
+        return f[1] == detail if kind == 'structure-differs' else True
+    steps = 0
+    changed = True
+    while changed and steps < budget:
+        changed = False
+        for cand in ag_candidates(ag):
+            steps += 1
+            if steps >= budget:
+                break
+            if bad(cand):
+                ag = cand
+                changed = True
+                break
+    return ag
+
+
+def a_group_negs(e, top=True):
+    """e with every negation `~x` written `( ~x )` (unless it already is the whole content of a sub-expression)"""
+    k = e[0]
+    if k == 'neg':
+        inner = ('neg', a_group_negs(e[1], False))
+        return inner if top == 'sub' else ('sub', inner)
+    if k in ('seq', 'alt'):
+        return (k, [a_group_negs(x, False) for x in e[1]])
+    if k == 'sub':
+        return (k, a_group_negs(e[1], 'sub'))
+    if k in ('opt', 'clo', 'pclo', 'synpred'):
+        return (k, a_group_negs(e[1], False))
+    if k == 'rewrite':
+        return (k, a_group_negs(e[1], False), e[2])
+    if k in ('label', 'labellist'):
+        return (k, e[1], a_group_negs(e[2], False))
+    return e
+
+
+# counterfactuals for the recorded defects that a translated model meets: the same ANTLR grammar with the construct that
+# triggers a recorded defect written in the form that avoids it (or, for a defect of the printers, the translated
+# model with the node that triggers it exchanged).  A failure that is there with exactly one trigger left and gone
+# without it is that defect (reported under its own signature, no shrinking needed); a failure that stays when all
+# triggers are neutralised is shrunk on the neutralised grammar.
+def neutral_tokens(ag):
+    return dict(ag, tokens=[(n, None) for n, _ in ag['tokens']])
+
+
+def neutral_negs(ag):
+    return dict(ag, rules=[dict(r, exp=a_group_negs(r['exp'])) for r in ag['rules']])
+
+
+def dots_for_dot_patterns(m):
+    """the translated model with every Pattern('.') (g2e's "any character" after a negation) exchanged for Dot, the
+    node its pretty form `/./` is read back as (Dot also matches a newline, the regex does not)"""
+    from tatsu import peg as g
+
+    def fix(n):
+        if type(n).__name__ == 'Pattern' and n.pattern == '.':
+            return g.Dot()
+        for attr in ('exp', 'sep'):
+            c = getattr(n, attr, None)
+            if c is not None and hasattr(c, 'children'):
+                setattr(n, attr, fix(c))
+        for attr in ('sequence', 'options', 'rules'):
+            c = getattr(n, attr, None)
+            if isinstance(c, (list, tuple)):
+                new = [fix(x) for x in c]
+                if any(x is not y for x, y in zip(new, c)):
+                    setattr(n, attr, type(c)(new))
+        return n
+    fix(m)
+    return m
+
+
+# (label, does the grammar hold the trigger, ANTLR-level rewrite, model-level rewrite)
+NEUTRAL = [
+    ('tokens-value', lambda ag: any(v is not None for _, v in ag['tokens']), neutral_tokens, None),
+    ('bare-negation', lambda ag: neutral_negs(ag) != ag, neutral_negs, None),
+    ('dot-pattern-newline', lambda ag: any(e[0] == 'neg' for r in ag['rules'] for e in a_walk(r['exp'])), None,
+     dots_for_dot_patterns),
+]
+
+
+def neutralised(ag, labels):
+    """(grammar, model fix) with the triggers named in labels neutralised"""
+    fixes = []
+    for label, _, ag_fn, m_fn in NEUTRAL:
+        if label in labels:
+            if ag_fn:
+                ag = ag_fn(ag)
+            if m_fn:
+                fixes.append(m_fn)
+
+    def model_fix(m):
+        for fn in fixes:
+            m = fn(m)
+        return m
+    return ag, (model_fix if fixes else None)
+
+
+def a_head(e):
+    e = a_norm(e)
+    k = e[0]
+    if k == 'sub':
+        return 'sub>' + a_head(e[1]).split('>')[0]
+    if k == 'lit':
+        c = str_class(e[1])
+        return 'lit' if c == 'plain' else 'lit:' + c
+    return k
+
+
+def antlr_features(ag) -> list[str]:
+    out = set()
+    if ag['tokens']:
+        out.add('tokens{}')
+    if ag['prelude']:
+        out.add('prelude')
+    names = [r['name'] for r in ag['rules']]
+    if len(set(names)) < len(names):
+        out.add('duplicate-rule')
+    for r in ag['rules']:
+        if r['lexer']:
+            out.add('lexer-rule')
+        if r['fragment']:
+            out.add('fragment')
+        if r['tail']:
+            out.add('lexer-command')
+        for e in a_walk(a_norm(r['exp'])):
+            k = e[0]
+            if k in ('seq', 'ref'):
+                continue
+            if k == 'lit':
+                h = a_head(e)
+                if h != 'lit':
+                    out.add(h)
+            elif k in ('neg', 'opt', 'clo', 'pclo', 'synpred'):
+                out.add(k + '>' + a_head(e[1]))
+            elif k in ('label', 'labellist'):
+                out.add(k + '>' + a_head(e[2]))
+            elif k == 'sub':
+                out.add(a_head(e))
+            elif k in ('set', 'nset'):
+                out.add(k + (':rep' if e[2] else ''))
+            else:
+                out.add(k)
+    return sorted(out)
+
+
+def run_antlr(chk: Check):
+    import random
+    rng = chk.rng
+    n = 40 if chk.quick else 200
+    nbad = nskip = nshrunk = 0
+    kinds_seen = set()
+    for it in range(n):
+        for _ in range(12):
+            ag = AGen(rng, risky=(it % 5 == 4)).grammar()
+            if ag_ok(ag) and a_size(ag) <= 45:
+                break
+        else:
+            chk.count('antlr.generator-invalid')
+            continue
+        seed = rng.randrange(1 << 30)
+        stats: dict = {}
+        f = antlr_failure(ag, random.Random(seed), chk.quick, stats)
+        chk.count('antlr.' + ('ok' if f is None else f[0] if f[0] != 'skip' else 'skip:' + f[1]))
+        chk.count('antlr.wrapped' if LAST['wrapped'] else 'antlr.one-line')
+        chk.case('antlr:' + json.dumps(ag, sort_keys=True, default=str), nontrivial=(f is None or f[0] != 'skip'))
+        for r in ag['rules']:
+            for e in a_walk(a_norm(r['exp'])):
+                chk.count('antlr.node.' + (e[0] if e[0] != 'neg' else 'neg>' + a_head(e[1])))
+        for t in stats.get('nodes', []):
+            kinds_seen.add(t)
+        chk.count('antlr.inputs', stats.get('inputs', 0))
+        chk.count('antlr.inputs.start-accepted', stats.get('accepted', 0))
+        if f is None:
+            continue
+        if f[0] == 'skip':
+            nskip += 1
+            continue
+        nbad += 1
+        f0 = f
+        # a recorded defect?  With every trigger of one neutralised the failure must be gone, and with exactly one
+        # trigger left it must be back: then what is seen with that trigger alone is that defect
+        labels = [l for l, applies, _, _ in NEUTRAL if applies(ag)]
+        base, mfix = neutralised(ag, labels)
+        if labels:
+            f = antlr_failure(base, random.Random(seed), chk.quick, model_fix=mfix)
+            if f is not None and f[0] == 'skip':
+                chk.count('antlr.explained.skip')
+                continue
+            if f is None:
+                hit = False
+                for l in labels:
+                    ag1, mfix1 = neutralised(ag, [x for x in labels if x != l])
+                    f1 = antlr_failure(ag1, random.Random(seed), chk.quick, model_fix=mfix1)
+                    if f1 is None or f1[0] == 'skip':
+                        continue
+                    hit = True
+                    chk.count('antlr.explained.' + l)
+                    chk.violation(f'{f1[0]}[]:antlr:{l}',
+                                  f'{f1[0]} {f1[1]} for a model translated from ANTLR by tatsu.g2e; not when the trigger '
+                                  f'of the recorded defect is avoided: {l}',
+                                  {'oracle': 'antlr round trip', 'origin': 'antlr', 'failure': list(f1),
+                                   'antlr': antlr_text(ag1), 'spec': ag1, 'input_seed': seed, 'only trigger left': l})
+                if not hit:      # only the combination fails: not one of the recorded classes
+                    chk.violation(f'{f0[0]}[]:antlr:' + '+'.join(labels),
+                                  f'{f0[0]} {f0[1]} for a model translated from ANTLR by tatsu.g2e, only with all of: '
+                                  + ', '.join(labels),
+                                  {'oracle': 'antlr round trip', 'origin': 'antlr', 'failure': list(f0),
+                                   'antlr': antlr_text(ag), 'spec': ag, 'input_seed': seed})
+                continue
+        nshrunk += 1
+        if chk.quick and nshrunk > 8:      # enough witnesses for one quick run: the rest is reported unshrunk
+            chk.count('antlr.unshrunk')
+            chk.violation(f'{f[0]}[]:antlr:unshrunk', f'{f[0]} {f[1]} for a model translated from ANTLR by tatsu.g2e',
+                          {'oracle': 'antlr round trip', 'origin': 'antlr', 'failure': list(f), 'antlr': antlr_text(base),
+                           'spec': base, 'input_seed': seed})
+            continue
+        chk.count('antlr.explained.by-shrink')
+        small = antlr_shrink(base, seed, chk.quick, f[0], f[1], 100 if chk.quick else 600, mfix)
+        f2 = antlr_failure(small, random.Random(seed), chk.quick, model_fix=mfix) or f
+        if f2[0] == 'skip':
+            small, f2 = base, f
+        detail = f2[1] if f2[0] in ('structure-differs', 'rule-attrs-differ', 'directives-differ', 'rails-raises') else ''
+        sig = f'{f2[0]}[{detail}]:antlr:' + ','.join(antlr_features(small))
+        rep = {'oracle': 'antlr round trip', 'origin': 'antlr', 'failure': list(f2), 'antlr': antlr_text(small),
+               'spec': small, 'input_seed': seed}
+        try:
+            from tatsu import g2e
+            rep['pretty'] = g2e.translate(text=antlr_text(small), name='Gen').pretty()
+        except Exception as e:
+            rep['pretty'] = f'<{type(e).__name__}>'
+        chk.violation(sig, f'{f2[0]} {f2[1]} for a model translated from ANTLR by tatsu.g2e: '
+                      + ' / '.join(antlr_features(small)), rep)
+    chk.obligation('O1b:models translated from ANTLR (tatsu.g2e.translate): pretty() recompiles, is a fixpoint, parses '
+                   'equally from every rule, has the same structure; railroads equal width', 'oracle',
+                   not any(v['replay'].get('oracle') == 'antlr round trip' for v in chk.violations)
+                   and nskip * 4 <= n, f'{n} grammars, {nskip} not translated')
+    chk.sample({'antlr grammars': n, 'failing (incl. known)': nbad, 'not translated': nskip,
+                'model node kinds': sorted(kinds_seen)})
+
+
 def run_oracle(chk: Check):
     rng = chk.rng
     n = 90 if chk.quick else 300
@@ -1642,6 +2457,7 @@ def run_oracle(chk: Check):
             nbad += 1
             prober.explain(spec, og, inputs, f)
     run_layout(chk, prober)
+    run_antlr(chk)
     chk.obligation('O1:pretty() recompiles, is a fixpoint, parses equally, keeps headers; railroads equal width',
                    'oracle', not any(v['replay'].get('oracle') == 'pretty round trip' for v in chk.violations))
     chk.sample({'grammars': n, 'failing (incl. known)': nbad})
@@ -1924,7 +2740,18 @@ def main():
                 'grammars from pools of long literals / names; sentences where every repetition runs at least twice and '
                 'patterns are glued to the preceding text (patterns do not skip blanks). Besides equal ASTs on the sampled '
                 'inputs the recompiled model must be built from the same constructors in the same places (Fail = !(), '
-                'pattern . = Dot, nested sequences / choices flattened). Budgets are CPU seconds; an overrun skips the '
+                'pattern . = Dot, nested sequences / choices flattened, g2e Synth placeholders transparent). ANTLR family: '
+                'random ANTLR grammars (1-4 parser rules over literals incl. escapes and double-quoted ones, rule and '
+                'token references (token defined before / after / in tokens{} / nowhere), parenthesised sub-expressions, '
+                '~ of a literal / token / set / negation / sub-expression with alternatives or sequences, ? * + +? '
+                'suffixes, = and += labels, alternatives incl. empty ones, actions, predicates, syntactic predicates, '
+                'rewrites, sets and ranges; lexer rules incl. fragments and lexer commands, options / @header / '
+                '@members, comments; camelCase names) translated by tatsu.g2e.translate, then the same O1 oracles with '
+                'sentences sampled from the translated model (accepted ones preferred, the operand of a negation now '
+                'and then put where it is forbidden) and 2-3 sentences of every other rule parsed with that rule as '
+                'start; every 5th grammar may use the forms that hit the recorded translator defects (a failure that '
+                'disappears when those forms are rewritten is reported under that defect, anything else is shrunk). '
+                'Budgets are CPU seconds; an overrun skips the '
                 'case and is never a verdict. thorough: also every pool entry and node kind alone. P2: all texts of length '
                 '<= 2 over a 24-character alphabet, all of length <= 3 (quick) / 4 (thorough) over quote, dquote, backslash, '
                 'a, newline, random longer ones; hand-written escape literals. P3: random rails incl. wide characters and '
@@ -1935,7 +2762,9 @@ def main():
                     'multiline strings, backslash-N{name}, comment skipping before a lexeme, walker.py']
     chk.assumptions += ['programmatically built models respect the precedence of the grammar (a Choice or Sequence nested '
                         'in a Sequence / Named / lookahead is wrapped in a Group, as tatsu/g2e does); includes and bases '
-                        'name rules defined earlier']
+                        'name rules defined earlier',
+                        'ANTLR family: only the subset of ANTLR that tatsu/g2e/antlr.tatsu reads; what the translation '
+                        'means is not judged (only that its pretty text is the same parser as the translated model)']
     source_shape(chk)
     if not chk.no_coq:
         chk.coq()
